@@ -46,6 +46,8 @@ def shards(tier):
             out.append({'prog': i, 'part': [r, np], 'mode': 'main'})
         out.append({'prog': i, 'mode': 'groups'})
         out.append({'prog': i, 'mode': 'single'})
+    from .c01 import UNEVEN_TARGETS
+    out += [{'prog': -1, 'uneven': i, 'mode': 'uneven'} for i in range(len(UNEVEN_TARGETS))]
     return out
 
 
@@ -97,6 +99,26 @@ def check(fst, root, src0, hist, cid, variant, res):
 
 def run_shard(desc, tier, res):
     import fst
+    if desc['mode'] == 'uneven':  # multi-line slice codes whose lines are re-indented by different amounts (C01's `uneven` shard): positions afterwards
+        from .c01 import UNEVEN_TARGETS, UNEVEN
+        src0 = UNEVEN_TARGETS[desc['uneven']]
+        for op in E.enumerate_ops(src0, **UNEVEN):
+            for variant in ('none', 'full'):
+                root = fst.FST(src0, 'exec')
+                if variant == 'full':
+                    B.battery(root, B.GROUPS)
+                cid = f"C02/uneven{desc['uneven']}/{E.op_id(op)}/pre={variant}"
+                res.evals += 1
+                res.transitions += 1
+                try:
+                    E.apply(fst, root, op)
+                except Exception:  # noqa: BLE001
+                    continue
+                if unparsable(root):
+                    continue
+                if check(fst, root, src0, [op], cid, variant, res):
+                    res.nontriv(cid)
+        return
     src0 = PROGRAMS[desc['prog']]
     if desc['mode'] == 'groups':  # depth 1, every single query group as the deviation
         for op in E.enumerate_ops(src0, nk=1 if tier == 'quick' else 3, nks=1, forms=('src',), opts=({},), extra=('par',)):
